@@ -261,7 +261,9 @@ def run(cx):
         # the guards captured are the live maps
         if not loop_form:
             caps = {u["name"] for u in b.upvars}
-            ob.require({"active_peers", "self__pending_dials", "self__dial_backoff_states", "self__endpoint", "now"} <= caps, "eligible/captures", f"closure captures {sorted(caps)}", b.path)
+            # (field by field - edition-2021 disjoint captures - or `self` as a whole when the predicate lives in a method)
+            ob.require({"active_peers", "now"} <= caps and ("self" in caps or {"self__pending_dials", "self__dial_backoff_states", "self__endpoint"} <= caps), "eligible/captures",
+                       f"closure captures {sorted(caps)}", b.path)
 
     with cx.ob("C13.2", "R-FLOW", "backoff: attempts+1, now + min(max, step×attempts); drain: success clears, failure updates/creates with (now, step, max), unfinished kept") as ob:
         ub = cx.body(f"{BS}::update")
